@@ -93,6 +93,8 @@ impl Completions {
         }
 
         // Let the kernel write more completions.
+        #[cfg(a10_verif)]
+        crate::verif::sched_point(crate::verif::POINT_CQ_HEAD_STORE);
         unsafe { (&*self.entries_head.as_ptr()).store(head, Ordering::Release) };
 
         Ok(())
